@@ -851,8 +851,14 @@ class Compiler(object):
                 *self.lookup_type_descriptor(
                     type_name,
                     module_name))
-            compiled.type_name = type_name
-            compiled.module_name = module_name
+
+            # A recursive reference (the body of an alias of a type
+            # being compiled) keeps the name and the module of the
+            # type it refers to.
+            if not isinstance(compiled, Recursive):
+                compiled.type_name = type_name
+                compiled.module_name = module_name
+
             self.types_backtrace_pop()
             self.set_compiled_type(name,
                                    type_name,
